@@ -299,7 +299,12 @@ theorem OwnT_step (s : BState) (c : Call) (h2 : Inv2 s.view) (h : OwnT s) : OwnT
             simp at h1; subst h1
             have := mkEdge_own h2 hc hf ht T.edges c s.store.length s.nextExpr (s.nextExpr + 1) (s.nextExpr + 1 + 1)
             exact this
-  case procSelect n => refine h.same g ?_; simp only [step]; rw [addSelectSymbol_doc]
+  case procSelect n =>
+    refine h.same g ?_
+    simp only [step]
+    cases s.currentEdge with
+    | none => rfl
+    | some p => simp only []; rw [addSelectSymbol_doc]
   case ganttSelect n => refine h.same g ?_; simp only [step]; rw [addSelectSymbol_doc]
   case procGuard => simp only [step]; exact ownT_setEdge h _ (fun _ _ => ⟨rfl, rfl, rfl, rfl⟩)
   case procUpdate => simp only [step]; exact ownT_setEdge h _ (fun _ _ => ⟨rfl, rfl, rfl, rfl⟩)
